@@ -43,7 +43,14 @@ TEXT["proc"] = ("XsHandlers / XsCommands / XsGenerators (code-layer TLA+ models 
                 "and a regression list are executed against the three real serve loops wired as main.rs does, inside a worker "
                 "process that is killed / exits for a restart; the stream itself (every frame with stamps and CAS content) is the "
                 "trace and is validated by TLC against the observer spec TraceProc.")
+TEXT["cli"] = ("The same TLC-generated and random store behaviours are executed by the real `xs` binary built from /repo's working "
+               "tree (src/main.rs argument handling and option building, src/client query / xs-meta / request encoding, direct CAS "
+               "access for unix addresses), one child process per operation, against the API served on the store's unix socket; "
+               "follow streams (`xs cat --follow`, `xs cat --pulse n --limit m`) run as child processes while frames are appended. "
+               "Every answer is also asked of the Store API in the same state (differential: FrontEnd rule of TraceStore); the trace "
+               "is validated by TLC against TraceStore.")
 NOTE = {
+ "cli": "Trusted: the harness' parsing of the tool's output and error text (HTTP status taken from the client's error message). Bounded: URL-safe topics without NUL; `xs cat --sse` and `xs head --follow` are not exercised through the tool; a successful call that prints nothing ends the behaviour (counted in the evidence).",
  "codec": "Trusted: the transcription is checked against the code by the vectors themselves. Limit of the technique (DESIGN 5, C12): the grammar is exhaustive at token level, data values are classes.",
  "proc": "Trusted: TLC, the runner's normalisation of frames (dense ranks, content tokens), the script catalogue being deterministic. "
          "Bounded: MC_proc_*.cfg constants; histories sampled; absence of a frame is judged after a 20-30 s wait on something owed; "
@@ -54,6 +61,7 @@ NOTE = {
  "store": "Trusted: TLC, the harness' abstraction of concrete values back to model tokens, the xs_verif hooks (virtual clock, GC gate, raw dump). Bounded: model constants in spec/MC_store_*.cfg; behaviours sampled, not enumerated.",
 }
 TECH = {
+ "cli": "TLC trace validation (TraceStore + differential front-end rule) of model-generated behaviours executed by the real xs binary",
  "dur": "TLC model checking of XsDurable + real kill images and reconstructed power-loss images recovered by the real store + TLC trace validation (TraceDurable)",
  "codec": "TLC enumeration of a TLA+ transcription of the codec + one implementation test per model case, results validated by TLC",
  "proc": "TLC model checking of XsHandlers/XsCommands/XsGenerators + TLC trace validation (TraceProc) of client histories executed on the real serve loops, restarts by killing the serving process",
@@ -61,7 +69,7 @@ TECH = {
  "conc": "TLC model checking of XsConcurrent + gate-scheduled replay/exploration of real threads + TLC trace validation (TraceFollow)",
  "store": "TLC model checking of XsStore + TLC trace validation (TraceStore) of replayed behaviours on the real store",
 }
-DESIGN = {"proc": "DESIGN.md 3 (XsHandlers/XsGenerators/XsCommands), 5 (C14-C19), docs/proc-notes.md", "dur": "DESIGN.md 3 (XsDurable), 4.4, 5 (C04 C10 C07); docs/dur-notes.md", "codec": "DESIGN.md 5 (C12)","http": "DESIGN.md 5 (C13), Appendix D","conc": "DESIGN.md 3, 4.1, 5 (C02 C03 C11)", "store": "DESIGN.md 3, 4, 5 (C01 C05 C07 C08 C09 C20)"}
+DESIGN = {"cli": "DESIGN.md 0.3 (cli group), 5 (C12 C13 C20)", "proc": "DESIGN.md 3 (XsHandlers/XsGenerators/XsCommands), 5 (C14-C19), docs/proc-notes.md", "dur": "DESIGN.md 3 (XsDurable), 4.4, 5 (C04 C10 C07); docs/dur-notes.md", "codec": "DESIGN.md 5 (C12)","http": "DESIGN.md 5 (C13), Appendix D","conc": "DESIGN.md 3, 4.1, 5 (C02 C03 C11)", "store": "DESIGN.md 3, 4, 5 (C01 C05 C07 C08 C09 C20)"}
 
 # what each check decides of its property, and through which group
 PROP = {
@@ -76,22 +84,22 @@ PROP = {
  "C09": "store: ephemeral never stored, expired never read on either path, gone after drain, head bound and eviction order after drain; conc: ephemeral frames reach subscribed followers. Known finding C09-reopen-drops-head-gc recognised by its specific pattern only.",
  "C10": "store/http: byte-exact read-back of every content class, hash determinism across calls, entry points (Store API, POST /{topic}, POST /cas) and restarts, no body => no hash, every visible hash has content; conc: content readable at delivery; dur: after every kill image. nu / handler / command / generator entry points: processors group.",
  "C11": "conc: limit exact for every split between history and live, tail, synthetic frames private, stream ends after lag (B = 1 scenarios and production sizes in stress); store: limit on non-following reads incl. expired frames, tail without follow.",
- "C12": "codec: TTL and read-option grammar exhaustively at token level through every spelling and entry point, 2000 seeded ReadOptions round trips; store/http: every accepted frame (meta classes: deep nesting, u64::MAX, i64::MIN, 1e300, escapes, non-object metas, 5 KB strings) reads back identical on every path and survives reopen; a panic in the decoder is an observation.",
- "C13": "http: each route against the store semantics (TraceStore) with status codes, NDJSON = SSE, ~43 malformed request classes answered 4xx with unchanged partitions and a serving server, follow routes.",
+ "C12": "codec: TTL and read-option grammar exhaustively at token level through every spelling and entry point, 2000 seeded ReadOptions round trips; store/http: every accepted frame (meta classes: deep nesting, u64::MAX, i64::MIN, 1e300, escapes, non-object metas, 5 KB strings) reads back identical on every path and survives reopen; a panic in the decoder is an observation; cli: what the command line client encodes (context, ttl, xs-meta, last-id, limit, tail, all-contexts) is what the server decodes, judged by the effect and differentially against the Store API.",
+ "C13": "http: each route against the store semantics (TraceStore) with status codes and, differentially, against the Store API asked the same question in the same state (reads, get, head, effect of append / import / remove); NDJSON = SSE, ~43 malformed request classes answered 4xx with unchanged partitions and a serving server, follow routes (tail, from the beginning, heartbeat + limit, head --follow); cli: the same through the xs binary and src/client.",
  "C14": "proc: per handler instance, from the dumped stream alone: invoked exactly once ($env counter in the content), in id order, one group at a time, for every eligible frame of its context after its resume point (head / tail / after-id), never for its own output, for old registration traffic of its name or for another context; bursts from several client threads while the closure sleeps; pulse handlers.",
  "C15": "proc: every output group = explicit appends in call order then the return frame on <name><suffix> with the configured ttl, all stamped {handler_id, frame_id}, in the handler's context whatever --context said, content in CAS and as predicted (every nu return type, colliding user meta, meta values through nu); a failing invocation leaves nothing but one .unregistered with the error.",
  "C16": "proc: one announcement per registration (.registered, or .unregistered with error for invalid scripts), stop by a later (un)register of the (context, name) - also one the handler appends itself - or a failing trigger, announced exactly once, silent afterwards; at most one responder per (context, name); names that are prefixes of one another. Known findings C16-double-register / C16-unregister-in-flight by their specific pattern only.",
  "C17": "proc: restart = SIGKILL or exit of the serving process (in thorough: at every position of TLC-generated client lists) and start on the same directory: exactly the active handlers come back with their ids per (context, name), latest valid command definitions answer, accepted generators run again; stopped / replaced / failed ones do not; no historical trigger or call is re-executed.",
  "C18": "proc: per accepted spawn `start recv* stop` per lifecycle with source_id, context and contents in order, respawn after stop (up to three lifecycles observed), exactly one spawn.error for a refused spawn (no content, (context, name) taken), a refused spawn never runs - not at a later respawn either; duplex sends of its own context fed once, in order. Known finding C18-generator-worker-panic by its pattern only.",
  "C19": "proc: per call `recv* (complete | error)`, exactly one terminal, last; stamps {command_id, frame_id}; caller's context; latest valid definition of the (context, name); invalid definition reported by .error and never used; per-call isolation ($env), overlapping calls (sleeping closure) keep their stamps apart; explicit .append incl. a byte stream arriving in pieces; no replay after restart.",
- "C20": "store/http: export of a TLC/random-built store imported in random order with duplicates into an empty store (Store API and POST /cas + POST /import): same frames, heads, content, usable contexts; import keeps ids, identical re-import is a no-op, NUL topic or a different frame under a stored id is rejected whole.",
+ "C20": "store/http: export of a TLC/random-built store imported in random order with duplicates into an empty store (Store API and POST /cas + POST /import): same frames, heads, content, usable contexts; import keeps ids, identical re-import is a no-op, NUL topic or a different frame under a stored id is rejected whole; cli: the transfer through `xs cas-post` / `xs import` / `xs cat` / `xs cas`.",
 }
 
 hooks_commits = subprocess.run("git -C /repo log --format=%h --grep='^verif hooks' ", shell=True, capture_output=True, text=True).stdout.split()
 
 m = {
  "version": 1,
- "setup_cmd": "cd /verif/harness && cargo build 2>&1 | tail -2",
+ "setup_cmd": "cd /verif/harness && cargo build 2>&1 | tail -2 && cd /verif && CARGO_PROFILE_DEV_DEBUG=0 cargo build --offline --manifest-path /repo/Cargo.toml --bin xs --target-dir /verif/harness/target-xs 2>&1 | tail -2",
  "hooks": {
   "guard": "xs_verif",
   "enable": "rustc --cfg xs_verif, set in /verif/harness/.cargo/config.toml (the harness crate has a path dependency on /repo and is rebuilt by every check)",
